@@ -163,7 +163,8 @@ BUILTIN_CLASSES = [
     ('UserCallEvent', ['object']),  # ghost: one record per call into unknown (user) code  # placeholder: any object of a class unknown to the class table
     ('asyncio.Future', ['object']),
     ('kiwipy.Future', ['object']),
-    ('kiwipy.CancelledError', ['BaseException']),
+    ('kiwipy.CancelledError', ['Exception']),  # = concurrent.futures.CancelledError(Error(Exception))
+    ('concurrent.futures.InvalidStateError', ['Exception']),
     ('kiwipy.TimeoutError', ['Exception']),
     ('kiwipy.RemoteException', ['Exception']),
     ('kiwipy.DeliveryFailed', ['Exception']),
@@ -200,6 +201,7 @@ EXTERNAL_ALIASES = {
     'asyncio.CancelledError': 'asyncio.CancelledError', 'asyncio.InvalidStateError': 'asyncio.InvalidStateError',
     'asyncio.TimeoutError': 'asyncio.TimeoutError',
     'kiwipy.Future': 'kiwipy.Future', 'kiwipy.CancelledError': 'kiwipy.CancelledError',
+    'concurrent.futures.InvalidStateError': 'concurrent.futures.InvalidStateError',
     'kiwipy.TimeoutError': 'kiwipy.TimeoutError', 'kiwipy.RemoteException': 'kiwipy.RemoteException',
     'kiwipy.DeliveryFailed': 'kiwipy.DeliveryFailed', 'kiwipy.TaskRejected': 'kiwipy.TaskRejected',
     'kiwipy.Communicator': 'kiwipy.Communicator', 'kiwipy.BroadcastFilter': 'kiwipy.BroadcastFilter',
